@@ -867,6 +867,70 @@ def evalItems (G : Cfg N) : Items → Except (ErrKind × Str × Option Nat) (Val
        | .error x => .error x)
 end
 
+/-! ### which errors are admissible
+
+The property demands "a runtime error that names the operand": when several operands of an
+operator are of the wrong kind or fail to evaluate, an error about ANY of them qualifies (which
+one is reported depends on the order in which the interpreter happens to evaluate and check). -/
+
+abbrev Err := ErrKind × Str × Option Nat
+
+def ownLeft (o : BinOp) (n1 : Str) : Val N → List Err
+  | v =>
+    match o, v with
+    | .plus, .num _ | .minus, .num _ | .times, .num _ | .div, .num _ | .divint, .num _ | .modint, .num _ => []
+    | .plus, _ | .minus, _ | .times, _ | .div, _ | .divint, _ | .modint, _ => [(.notANumber, n1, some 0)]
+    | .and, .bool _ | .or, .bool _ => []
+    | .and, _ | .or, _ => [(.notABoolean, n1, some 0)]
+    | _, _ => []
+
+/-- for the right operand of and/or/in/notin both attachments are admissible here (the one the code
+    uses, child 0, is the known finding `error-node-left-operand`) -/
+def ownRight (o : BinOp) (n2 : Str) : Val N → List Err
+  | v =>
+    match o, v with
+    | .plus, .num _ | .minus, .num _ | .times, .num _ | .div, .num _ | .divint, .num _ | .modint, .num _ => []
+    | .plus, _ | .minus, _ | .times, _ | .div, _ | .divint, _ | .modint, _ => [(.notANumber, n2, some 1)]
+    | .and, .bool _ | .or, .bool _ => []
+    | .and, _ | .or, _ => [(.notABoolean, n2, some 1), (.notABoolean, n2, some 0)]
+    | .isin, .list _ _ _ | .notin, .list _ _ _ => []
+    | .isin, _ | .notin, _ => [(.notAList, n2, some 1), (.notAList, n2, some 0)]
+    | _, _ => []
+
+/-- errors of the operator itself on two operand VALUES of the right kinds -/
+def ownBoth (G : Cfg N) (o : BinOp) (v1 v2 : Val N) : List Err :=
+  match o, v1, v2 with
+  | .modint, .num a, .num b =>
+    if G.C.inInt64 a && G.C.inInt64 b then (if G.C.toInt b = 0 then [(.runtime, [], none)] else [])
+    else (match G.C.wideMod a b with | some _ => [] | none => [(.runtime, [], none)])
+  | .like, a, b => (match G.re (a.text G.C) (b.text G.C) with | some _ => [] | none => [(.runtime, [], some 1)])
+  | _, _, _ => []
+
+mutual
+/-- all admissible errors of a tree (empty iff the reference evaluation yields a value) -/
+def errSet (G : Cfg N) : Expr → List Err
+  | .atom _ => []
+  | .list its => errSetItems G its
+  | .bin o _ l r =>
+    errSet G l ++ errSet G r ++
+    (match eval G l, eval G r with
+     | .val v1, .val v2 => ownLeft o (opName l) v1 ++ ownRight o (opName r) v2 ++ ownBoth G o v1 v2
+     | .val v1, .err _ _ _ => ownLeft o (opName l) v1
+     | .err _ _ _, .val v2 => ownRight o (opName r) v2
+     | .err _ _ _, .err _ _ _ => [])
+  | .pre p _ x =>
+    errSet G x ++
+    (match eval G x with
+     | .val v =>
+       (match preSem G.C p (opName x) v with
+        | .err k s q => [(k, s, q)]
+        | .val _ => [])
+     | .err _ _ _ => [])
+def errSetItems (G : Cfg N) : Items → List Err
+  | .nil => []
+  | .cons e rest => errSet G e ++ errSetItems G rest
+end
+
 mutual
 /-- every `%` in the tree is applied (per the reference evaluation) to operands inside the int64
     range, or to operands that are not both numbers -/
